@@ -37,39 +37,45 @@ func c02CheckRoundTrip(c GoCase) *pbt.Violation {
 		return pbt.V("c02.encode.refused:"+refusalClass(res.err), "every value of the documented universe round-trips",
 			"Marshal(%s) refused a documented value: %v", typ, res.err)
 	}
-	// one Encoder used for several values in a row writes the documents back to back (no state carried over)
+	// one Encoder used for several values in a row: what each successful Encode call adds to the stream is exactly
+	// one document for its value - also right after an Encode call that failed part-way through another value
+	// (an unsupported type deep inside it: the caller gets the error and goes on with the next value)
 	if len(res.out) < 4096 && len(res.out)%3 == 1 {
 		var seq bytes.Buffer
 		var serr error
+		var parts [][]byte
+		withFailure := len(res.out)%2 == 0
 		pv, stack := pbt.Try(func() {
 			e := nbt.NewEncoder(&seq)
 			e.NetworkFormat(c.Network)
 			for i := 0; i < 3 && serr == nil; i++ {
+				if i == 2 && withFailure {
+					_ = e.Encode(c02Unencodable{A: 7, S: "stale-stale-stale", L: []int32{1, 2, 3}, Bad: make(chan int), Z: 9}, "failing")
+				}
 				v := gm.Build(c.TD, c.VD)
 				var arg any = v.Interface()
 				if c.ByPtr {
 					arg = v.Addr().Interface()
 				}
+				before := seq.Len()
 				serr = e.Encode(arg, string(c.Name))
+				parts = append(parts, append([]byte{}, seq.Bytes()[before:]...))
 			}
 		})
 		if pv != nil {
 			return pbt.V(pbt.PanicKey("nbt.encode", stack), "encoding does not panic", "third Encode on one Encoder (%s) panicked: %v\n%s", typ, pv, stack)
 		}
 		if serr != nil {
-			return pbt.V("c02.encode.seq.refused", "every value of the documented universe round-trips", "one Encoder, several values: %v", serr)
+			return pbt.V("c02.encode.seq.refused", "every value of the documented universe round-trips", "one Encoder, several values (a failed Encode before the third: %v): %v", withFailure, serr)
 		}
-		if got, _, n, derr := rn.Decode(seq.Bytes(), c.Network); derr != nil || n*3 != seq.Len() {
-			_ = got
-			return pbt.V("c02.encode.seq", "every value round-trips (also as the 2nd and 3rd document written by one Encoder)",
-				"three Encode calls on one Encoder wrote %d bytes; the first document is %d bytes (reference reader: %v)", seq.Len(), n, derr)
-		}
-		third := seq.Bytes()[seq.Len()/3*2:]
 		a, _, _, e1 := rn.Decode(res.out, c.Network)
-		b, _, _, e2 := rn.Decode(third, c.Network)
-		if e1 == nil && (e2 != nil || rn.Diff(a, b, rn.EqOpts{}) != "") {
-			return pbt.V("c02.encode.seq", "every value round-trips (also as the 2nd and 3rd document written by one Encoder)",
-				"the third document written by one Encoder differs from the first: %s (err %v)", rn.Diff(a, b, rn.EqOpts{}), e2)
+		for k, part := range parts {
+			b, _, n, e2 := rn.Decode(part, c.Network)
+			if e1 == nil && (e2 != nil || n != len(part) || rn.Diff(a, b, rn.EqOpts{}) != "") {
+				return pbt.V("c02.encode.seq", "every value round-trips (also as the 2nd and 3rd document written by one Encoder)",
+					"Encode call #%d on one Encoder (a failed Encode of another value before the third: %v) added %d bytes that are not one document of its value: reference reader consumed %d, err %v, diff %s",
+					k+1, withFailure, len(part), n, e2, rn.Diff(a, b, rn.EqOpts{}))
+			}
 		}
 	}
 	fresh := reflect.New(typ)
@@ -95,6 +101,15 @@ func c02CheckRoundTrip(c GoCase) *pbt.Violation {
 		return pbt.V("c02.roundtrip.value", "decoding the encoding of v yields a value equal to v", "%s: %s", typ, d)
 	}
 	return nil
+}
+
+// c02Unencodable fails part-way: the fields before Bad are fine
+type c02Unencodable struct {
+	A   int32    `nbt:"a"`
+	S   string   `nbt:"s"`
+	L   []int32  `nbt:"l"`
+	Bad chan int `nbt:"bad"`
+	Z   int64    `nbt:"z"`
 }
 
 // refusalClass reduces an error message to its stable words (type names dropped).
